@@ -587,3 +587,229 @@ theorem c19_relocate_sep_bound {eps : ℝ} (heps : 0 < eps)
     rw [abs_le]
     constructor <;> linarith
 
+/-! ## the relocation pins the position angle -/
+
+/-- **relocating an event onto its own true direction returns the reconstructed direction**
+(so the position angle true→reco is used, not reco→true or a mirrored one).  True direction
+outside astropy's polar cap, canonical reconstructed declination. -/
+theorem c19_relocate_identity {eps : ℝ} (heps : 0 < eps) (tRa tDec rRa rDec : ℝ)
+    (ht : eps ≤ cos tDec) (hr : DecOk rDec) :
+    unitVec (relocate eps tRa tDec tRa tDec rRa rDec).1 (relocate eps tRa tDec tRa tDec rRa rDec).2
+      = unitVec rRa rDec ∧
+    angSep (relocate eps tRa tDec tRa tDec rRa rDec).1 (relocate eps tRa tDec tRa tDec rRa rDec).2
+      rRa rDec = 0 := by
+  have h := relocate_self tRa tDec rRa rDec ht heps (cos_nonneg_of_neg_pi_div_two_le_of_le hr.1 hr.2)
+  exact ⟨h, (c19_zero_iff_equal_dirs ..).mpr h⟩
+
+example : (1e-12 : ℝ) ≤ cos 0 ∧ DecOk (1 : ℝ) := by
+  refine ⟨by rw [cos_zero]; norm_num, ?_, ?_⟩ <;> linarith [two_le_pi]
+
+/-! ## the calls as a whole: length assertion, `SkyCoord` validation, whole-call errors -/
+
+namespace C19
+
+theorem latOk_iff (d : ℝ) : latOk d = true ↔ DecOk d := by
+  simp only [latOk, DecOk, TranscReal.pi_def, Bool.and_eq_true, Bool.not_eq_true', decide_eq_false_iff_not,
+    not_lt]
+
+theorem sameLen6 {a b c d e f : ℕ} (h : sameLen [a, b, c, d, e, f] = true) :
+    b = a ∧ c = a ∧ d = a ∧ e = a ∧ f = a := by
+  simpa [sameLen] using h
+
+end C19
+
+/-- **`rotate_signal_events_on_sphere` as one call**: exactly which calls raise, and with what —
+unequal lengths (the `assert`), else any declination outside `[-π/2, π/2]` (astropy `Latitude`,
+the whole call); a call that returns has equal lengths and canonical input declinations. -/
+theorem c19_relocateCall_errors (eps : ℝ) (sRa sDec tRa tDec rRa rDec : List ℝ) :
+    (relocateCall eps sRa sDec tRa tDec rRa rDec = .error .shape ↔
+      sameLen [sRa.length, sDec.length, tRa.length, tDec.length, rRa.length, rDec.length] = false) ∧
+    (relocateCall eps sRa sDec tRa tDec rRa rDec = .error .latitude ↔
+      sameLen [sRa.length, sDec.length, tRa.length, tDec.length, rRa.length, rDec.length] = true ∧
+      ∃ d ∈ sDec ++ tDec ++ rDec, ¬ DecOk d) ∧
+    relocateCall eps sRa sDec tRa tDec rRa rDec ≠ .error .index ∧
+    (∀ out, relocateCall eps sRa sDec tRa tDec rRa rDec = .ok out →
+      sameLen [sRa.length, sDec.length, tRa.length, tDec.length, rRa.length, rDec.length] = true ∧
+      ∀ d ∈ sDec ++ tDec ++ rDec, DecOk d) := by
+  have hall : (sDec ++ tDec ++ rDec).all latOk = true ↔ ∀ d ∈ sDec ++ tDec ++ rDec, DecOk d := by
+    rw [List.all_eq_true]; exact forall₂_congr fun d _ => latOk_iff d
+  unfold relocateCall
+  by_cases h1 : sameLen [sRa.length, sDec.length, tRa.length, tDec.length, rRa.length, rDec.length] = true
+  · by_cases h2 : (sDec ++ tDec ++ rDec).all latOk = true
+    · have h2' := hall.mp h2
+      simp only [h1, h2, if_true]
+      refine ⟨by simp, ?_, by simp, fun _ _ => ⟨trivial, h2'⟩⟩
+      constructor
+      · intro h; cases h
+      · rintro ⟨-, d, hd, hnd⟩; exact absurd (h2' d hd) hnd
+    · have h2' : ∃ d ∈ sDec ++ tDec ++ rDec, ¬ DecOk d := by
+        by_contra hc; push Not at hc; exact h2 (hall.mpr hc)
+      simp only [h1, h2, if_true]
+      refine ⟨by simp, ⟨fun _ => ⟨trivial, h2'⟩, fun _ => rfl⟩, by simp, fun out h => by cases h⟩
+  · have h1' : sameLen [sRa.length, sDec.length, tRa.length, tDec.length, rRa.length, rDec.length] = false := by
+      simpa using h1
+    simp only [h1']
+    refine ⟨by simp, ?_, by simp, fun out h => by cases h⟩
+    constructor
+    · intro h; cases h
+    · rintro ⟨h, -⟩; cases h
+
+/-- **every element of a call that returns**: the result has one entry per event, entry `i` is the
+relocation of the `i`-th reconstructed direction from the `i`-th true direction onto the `i`-th
+source (right ascensions wrapped into `[0, 2π)` first), it is a number pair (over ℝ never NaN), and —
+**without any hypothesis on the declinations**, the call has validated them — the separation from
+the source differs from the separation reco–true by at most `2·(π/2 − |δ_src|)` (0 outside
+astropy's polar cap, `c19_relocate_preserves_sep`). -/
+theorem c19_relocateCall_elem {eps : ℝ} (heps : 0 < eps) (sRa sDec tRa tDec rRa rDec : List ℝ)
+    (out : List (Option (ℝ × ℝ))) (h : relocateCall eps sRa sDec tRa tDec rRa rDec = .ok out) :
+    out.length = sRa.length ∧
+    ∀ (i : ℕ) (a b c d e f : ℝ), sRa[i]? = some a → sDec[i]? = some b → tRa[i]? = some c →
+      tDec[i]? = some d → rRa[i]? = some e → rDec[i]? = some f →
+      ∃ p : ℝ × ℝ, out[i]? = some (some p) ∧
+        p = relocate eps (modF a twoPi) b (modF c twoPi) d (modF e twoPi) f ∧
+        RaOk p.1 ∧ DecOk p.2 ∧
+        |angSep a b p.1 p.2 - angSep c d e f| ≤ 2 * (π / 2 - |b|) := by
+  obtain ⟨hlen, hdec⟩ := (c19_relocateCall_errors eps sRa sDec tRa tDec rRa rDec).2.2.2 out h
+  obtain ⟨l2, l3, l4, l5, l6⟩ := sameLen6 hlen
+  have hall : (sDec ++ tDec ++ rDec).all latOk = true := by
+    rw [List.all_eq_true]; exact fun d hd => (latOk_iff d).mpr (hdec d hd)
+  unfold relocateCall at h
+  simp only [hlen, hall, if_true, Except.ok.injEq] at h
+  set g := relocateAt eps sRa sDec tRa tDec rRa rDec with hg
+  have hsome : ∀ j < sRa.length, (g j).isSome := by
+    intro j hj
+    simp only [hg, relocateAt, List.getElem?_eq_getElem hj, List.getElem?_eq_getElem (l2 ▸ hj : j < sDec.length),
+      List.getElem?_eq_getElem (l3 ▸ hj : j < tRa.length), List.getElem?_eq_getElem (l4 ▸ hj : j < tDec.length),
+      List.getElem?_eq_getElem (l5 ▸ hj : j < rRa.length), List.getElem?_eq_getElem (l6 ▸ hj : j < rDec.length)]
+    rfl
+  refine ⟨by rw [← h]; exact filterMap_range_length g _ hsome, ?_⟩
+  intro i a b c d e f ha hb hc hd he hf
+  have hi : i < sRa.length := (List.getElem?_eq_some_iff.mp ha).1
+  have hgi : g i = some (some (relocate eps (modF a twoPi) b (modF c twoPi) d (modF e twoPi) f)) := by
+    simp only [hg, relocateAt, ha, hb, hc, hd, he, hf, c19_relocateD_eq]
+  refine ⟨_, by rw [← h, filterMap_range_getElem? g _ hsome i hi, hgi], rfl, raOk_modF _, decOk_arcsin _, ?_⟩
+  have hb' : DecOk b := hdec b (by
+    have := List.mem_of_getElem? hb; simp [this])
+  have hbound := c19_relocate_sep_bound heps (modF a twoPi) b (modF c twoPi) d (modF e twoPi) f hb'
+  rw [angSep_eq_arccos_dot (modF a twoPi), angSep_eq_arccos_dot (modF c twoPi), unitVec_modF, unitVec_modF,
+    unitVec_modF, ← angSep_eq_arccos_dot, ← angSep_eq_arccos_dot] at hbound
+  exact hbound
+
+/-- `rotate_spherical_vector` as one call: it raises exactly for unequal lengths; a call that
+returns has one entry per event, each the per-event function (over ℝ never NaN, in range) -/
+theorem c19_rotateCall (ra1 dec1 ra2 dec2 ra3 dec3 : List ℝ) :
+    (rotateCall ra1 dec1 ra2 dec2 ra3 dec3 = .error .shape ↔
+      sameLen [ra1.length, dec1.length, ra2.length, dec2.length, ra3.length, dec3.length] = false) ∧
+    (∀ out, rotateCall ra1 dec1 ra2 dec2 ra3 dec3 = .ok out →
+      out.length = ra1.length ∧
+      ∀ (i : ℕ) (a b c d e f : ℝ), ra1[i]? = some a → dec1[i]? = some b → ra2[i]? = some c →
+        dec2[i]? = some d → ra3[i]? = some e → dec3[i]? = some f →
+        out[i]? = some (some (rotateSphericalVector a b c d e f))) := by
+  unfold rotateCall
+  by_cases h1 : sameLen [ra1.length, dec1.length, ra2.length, dec2.length, ra3.length, dec3.length] = true
+  · obtain ⟨l2, l3, l4, l5, l6⟩ := sameLen6 h1
+    simp only [h1, if_true]
+    refine ⟨by simp, ?_⟩
+    intro out h
+    simp only [Except.ok.injEq] at h
+    set g := rotateAt ra1 dec1 ra2 dec2 ra3 dec3 with hg
+    have hsome : ∀ j < ra1.length, (g j).isSome := by
+      intro j hj
+      simp only [hg, rotateAt, List.getElem?_eq_getElem hj, List.getElem?_eq_getElem (l2 ▸ hj : j < dec1.length),
+        List.getElem?_eq_getElem (l3 ▸ hj : j < ra2.length), List.getElem?_eq_getElem (l4 ▸ hj : j < dec2.length),
+        List.getElem?_eq_getElem (l5 ▸ hj : j < ra3.length), List.getElem?_eq_getElem (l6 ▸ hj : j < dec3.length)]
+      rfl
+    refine ⟨by rw [← h]; exact filterMap_range_length g _ hsome, ?_⟩
+    intro i a b c d e f ha hb hc hd he hf
+    have hi : i < ra1.length := (List.getElem?_eq_some_iff.mp ha).1
+    rw [← h, filterMap_range_getElem? g _ hsome i hi]
+    simp only [hg, rotateAt, ha, hb, hc, hd, he, hf, c19_rotateSphericalVectorD_eq]
+  · have h1' : sameLen [ra1.length, dec1.length, ra2.length, dec2.length, ra3.length, dec3.length] = false := by
+      simpa using h1
+    simp only [h1']
+    exact ⟨by simp, fun out h => by cases h⟩
+
+/-- the `psi` field as one call: `np.take` raises iff some pair names a source or an event that
+does not exist; otherwise one value per pair -/
+theorem c19_psiFieldCall (srcs evts : List (ℝ × ℝ)) (pairs : List (ℕ × ℕ)) (fl : Option ℝ) :
+    (psiFieldCall srcs evts pairs fl = .error .index ↔
+      ∃ p ∈ pairs, srcs.length ≤ p.1 ∨ evts.length ≤ p.2) ∧
+    (∀ vals, psiFieldCall srcs evts pairs fl = .ok vals → vals.length = pairs.length) := by
+  have key : (psiField srcs evts pairs fl).all Option.isSome = true ↔
+      ∀ p ∈ pairs, p.1 < srcs.length ∧ p.2 < evts.length := by
+    simp only [psiField, List.all_map, List.all_eq_true, Function.comp]
+    refine forall₂_congr fun p _ => ?_
+    by_cases h1 : p.1 < srcs.length <;> by_cases h2 : p.2 < evts.length <;>
+      simp [h1, h2]
+  unfold psiFieldCall
+  by_cases h : (psiField srcs evts pairs fl).all Option.isSome = true
+  · simp only [h, if_true]
+    refine ⟨?_, ?_⟩
+    · constructor
+      · intro hc; cases hc
+      · rintro ⟨p, hp, hbad⟩
+        have := key.mp h p hp
+        omega
+    · intro vals hv
+      simp only [Except.ok.injEq] at hv
+      rw [← hv]
+      have hl : (psiField srcs evts pairs fl).length = pairs.length := by simp [psiField]
+      rw [← hl]
+      clear hl hv key
+      generalize psiField srcs evts pairs fl = l at h ⊢
+      induction l with
+      | nil => rfl
+      | cons x xs ih =>
+        simp only [List.all_cons, Bool.and_eq_true] at h
+        obtain ⟨v, hv⟩ := Option.isSome_iff_exists.mp h.1
+        have := ih h.2
+        subst hv
+        simpa using this
+  · have hf : (psiField srcs evts pairs fl).all Option.isSome = false := by simpa using h
+    simp only [hf]
+    refine ⟨⟨fun _ => ?_, fun _ => rfl⟩, fun vals hv => by cases hv⟩
+    by_contra hc
+    push Not at hc
+    exact h (key.mpr fun p hp => by have := hc p hp; omega)
+
+/-! ## the default (source, event) pairs of a trial -/
+
+/-- without an event selection the trial data manager pairs every source with every event,
+source-major: `K·n` pairs, each index in range, source indices ascending — … -/
+theorem c19_default_pairs (K n : ℕ) :
+    (defaultPairs K n).length = K * n ∧
+    (∀ p ∈ defaultPairs K n, p.1 < K ∧ p.2 < n) ∧
+    (∀ k e, k < K → e < n → (k, e) ∈ defaultPairs K n) ∧
+    ((defaultPairs K n).map Prod.fst).Pairwise (· ≤ ·) := by
+  refine ⟨?_, ?_, ?_, ?_⟩
+  · simp [defaultPairs, List.length_flatMap]
+  · intro p hp
+    simp only [defaultPairs, List.mem_flatMap, List.mem_map, List.mem_range] at hp
+    obtain ⟨k, hk, e, he, rfl⟩ := hp
+    exact ⟨hk, he⟩
+  · intro k e hk he
+    simp only [defaultPairs, List.mem_flatMap, List.mem_map, List.mem_range]
+    exact ⟨k, hk, e, he, rfl⟩
+  · induction K with
+    | zero => simp [defaultPairs]
+    | succ K ih =>
+      have : defaultPairs (K + 1) n = defaultPairs K n ++ (List.range n).map fun e => (K, e) := by
+        simp [defaultPairs, List.range_succ, List.flatMap_append]
+      rw [this, List.map_append, List.pairwise_append]
+      refine ⟨ih, ?_, ?_⟩
+      · simp [List.pairwise_iff_getElem]
+      · intro a ha b hb
+        simp only [List.mem_map, defaultPairs, List.mem_flatMap, List.mem_range] at ha hb
+        obtain ⟨p, ⟨k, hk, e, he, rfl⟩, rfl⟩ := ha
+        obtain ⟨q, ⟨e', he', rfl⟩, rfl⟩ := hb
+        exact hk.le
+
+/-- … hence for the default pairs the block-layout helper and `np.take(src_idxs)` agree -/
+theorem c19_block_broadcast_default_pairs {α : Type} (xs : List α) (n : ℕ) :
+    (blockBroadcast xs ((defaultPairs xs.length n).map Prod.fst)).map some
+      = takeSrc xs ((defaultPairs xs.length n).map Prod.fst) := by
+  apply blockBroadcast_eq_take_of_sorted _ _ (c19_default_pairs xs.length n).2.2.2
+  intro i hi
+  obtain ⟨p, hp, rfl⟩ := List.mem_map.mp hi
+  exact ((c19_default_pairs xs.length n).2.1 p hp).1
+
